@@ -27,7 +27,7 @@ def cfg(N, NS, NC, V, emit, nshards=1, shard=0, sim=False):
             f"INIT Init\nNEXT {'NextSim' if sim else 'Next'}\n" + "".join(f"INVARIANT {i}\n" for i in inv) + "CHECK_DEADLOCK FALSE\n")
 
 
-def fingerprint(y_true, y_pred, *, tag=None):
+def fingerprint(y_true, y_pred, *, extra=None, tag=None):
     v = float(np.sum(y_true))
     if tag is not None:
         v += BIG * float(np.sum(tag))
@@ -121,7 +121,7 @@ def _one(args):
                         # the per-sample parameter arrives as a Series whose labels are a permutation of 0..n-1: slicing must stay positional
                         lab = list(range(n)); rnd.shuffle(lab)
                         mf = fm.MetricFrame(metrics=fingerprint, y_true=yfp, y_pred=yfp, sensitive_features=sf, control_features=cf,
-                                            sample_params={"tag": pd.Series(yfp, index=lab)})
+                                            sample_params={"extra": None, "tag": pd.Series(yfp, index=lab)})     # a None-valued parameter listed first is simply not passed
                         cols = {None: True}
                     else:
                         mf = fm.MetricFrame(metrics=fingerprint, y_true=yfp, y_pred=yfp, sensitive_features=sf, control_features=cf)
